@@ -1044,13 +1044,13 @@ class AnsiString:
                     # Special case - the string being added contains same formatting as end of my string.
                     # Because the settings work based on references instead of values, the settings not only
                     # need to be removed here but changed where they are removed in the added string.
-                    find_settings = settings.add
+                    find_settings = list(settings.add)
                     replace_settings = self._fmts[key].rem[:len(settings.add)]
                     self._fmts[key].rem = self._fmts[key].rem[len(settings.add):]
-                    settings.add = []
-                    if not self._fmts[key] and not settings:
+                    self._fmts[key].rem.extend(settings.rem)
+                    if not self._fmts[key]:
                         del self._fmts[key]
-                        continue
+                    continue
 
                 self._fmts[key].add.extend(settings.add)
                 self._fmts[key].rem.extend(settings.rem)
